@@ -1722,6 +1722,10 @@ impl Model {
     /// Try to solve minimization using specialized optimization algorithms
     /// Returns Some(solution) if optimization succeeds, None if should fall back to search
     fn try_optimization_minimize(&self, objective: &impl View) -> Option<Solution> {
+        #[cfg(selen_verif)]
+        if crate::verif_hooks::fast_path_disabled() {
+            return None;
+        }
         // Attempt optimization using the router
         match self.optimization_router.try_minimize(&self.vars, &self.props, objective) {
             OptimizationAttempt::Success(solution) => Some(solution),
@@ -1739,6 +1743,10 @@ impl Model {
     /// Try to solve maximization using specialized optimization algorithms  
     /// Returns Some(solution) if optimization succeeds, None if should fall back to search
     fn try_optimization_maximize(&self, objective: &impl View) -> Option<Solution> {
+        #[cfg(selen_verif)]
+        if crate::verif_hooks::fast_path_disabled() {
+            return None;
+        }
         // Attempt optimization using the router
         match self.optimization_router.try_maximize(&self.vars, &self.props, objective) {
             OptimizationAttempt::Success(solution) => Some(solution),
